@@ -187,8 +187,8 @@ def run(ctx):
     if ctx.tier == "quick":
         explore(ctx, h, drv, "main", 9, 14, 1, 12)
     else:
-        explore(ctx, h, drv, "main", 40, 40, 1, 60)
-        explore(ctx, h, drv, "long", 12, 150, 7, 40)
+        explore(ctx, h, drv, "main", 24, 30, 1, 60)
+        explore(ctx, h, drv, "long", 6, 100, 9, 30)
     if ctx.proof_broken or ctx.corr_broken:
         ctx.log("obligation or correspondence broken: widening the search for a failing input")
         explore(ctx, h, None, "search", 12, 30, 1, 20)
